@@ -16,5 +16,5 @@ Reached(tid, l) == TLCSet(tid, IF TLCGet(tid) < l THEN l ELSE TLCGet(tid))
 AllAccepted ==
   LET bad == {i \in 1..NT : TLCGet(i) # Len(Traces[i]) + 1}
   IN  IF bad = {} THEN TRUE
-      ELSE PrintT(<<"REJECT", [i \in bad |-> TLCGet(i)]>>) /\ FALSE
+      ELSE PrintT(<<"REJECT", {<<i, TLCGet(i)>> : i \in bad}>>) /\ FALSE
 =====================================================================================
